@@ -14,7 +14,7 @@ from ..ref import scores as RS
 from . import common
 
 ID = "C01"
-RUNS = {"quick": 12000, "thorough": 600000}
+RUNS = {"quick": 9000, "thorough": 600000}
 TIME = {"quick": 75, "thorough": 1500}
 RULE_TEXT = (
     "case = seeded (profile, one of 19 rule classes, m, quota, simultaneous, transfer, tiebreak) executed under 4 schedules of the "
@@ -108,6 +108,8 @@ def diagnose(case, o):
     m = kw.get("m", kw.get("m_2", 1))
     if r in ("RandomDictator", "BoostedRandomDictator") and len(mentioned) < m:
         return "fewer_ranked_candidates_than_seats"
+    if r == "PluralityVeto" and not o.budget and kw.get("tiebreak") in ("borda", "first_place") and any(len(g) > 1 for b in jp["ballots"] for g in (b.get("r") or [])):
+        return "tied_ballots_with_scored_tiebreak"
     if r == "PluralityVeto":
         f = RS.fpv(jp)
         npos = sum(1 for c in f if f[c] > 0)
